@@ -172,7 +172,9 @@ static bool any_cb(MBuf &m) { for (auto &c : m.cbs) if (c.exists) return true; r
 // enable/disable between change and pass is tracked as slack / unreported.
 static void m_change(int k, size_t a, size_t d) {
 	MBuf &m = R->m[k];
-	if (m.deferred) { if (any_cb(m)) { m.pend_add += a; m.pend_del += d; } else m.pend_add = m.pend_del = 0; }
+	// the library forgets unreported counts when a change finds no callback registered; a call that changes nothing
+	// (e.g. evbuffer_add of 0 bytes) returns before that point, so it forgets nothing
+	if (m.deferred) { if (any_cb(m)) { m.pend_add += a; m.pend_del += d; } else if (a || d) m.pend_add = m.pend_del = 0; }
 	for (auto &c : m.cbs) if (c.exists && c.enabled) {
 		c.exp_add += a; c.exp_del += d;
 		if (m.deferred && !c.nodefer) { c.unrep_add += a; c.unrep_del += d; }
